@@ -752,6 +752,12 @@ func spilledValue(v ssa.Value) ssa.Value {
 	if !ok {
 		return nil
 	}
+	return allocSingleValue(al)
+}
+
+// allocSingleValue: the one value ever stored into local al (nil if it is stored more than once, stored by a closure that
+// captures it, or its address escapes).
+func allocSingleValue(al *ssa.Alloc) ssa.Value {
 	var val ssa.Value
 	n := 0
 	for _, ref := range *al.Referrers() {
@@ -760,6 +766,8 @@ func spilledValue(v ssa.Value) ssa.Value {
 			if x.Addr == ssa.Value(al) {
 				n++
 				val = x.Val
+			} else {
+				return nil // the address itself is stored somewhere: aliased
 			}
 		case *ssa.MakeClosure:
 			cfn := x.Fn.(*ssa.Function)
@@ -770,6 +778,13 @@ func spilledValue(v ssa.Value) ssa.Value {
 				for _, r2 := range *cfn.FreeVars[i].Referrers() {
 					if st, ok := r2.(*ssa.Store); ok && st.Addr == ssa.Value(cfn.FreeVars[i]) {
 						return nil
+					}
+					if _, isLoad := r2.(*ssa.UnOp); !isLoad {
+						if _, isDbg := r2.(*ssa.DebugRef); !isDbg {
+							if _, isStore := r2.(*ssa.Store); !isStore {
+								return nil // handed on by the closure
+							}
+						}
 					}
 				}
 			}
